@@ -22,7 +22,8 @@ export VERIF_PLAIN_BIN=$A/target-plain/plain/harness
 # the real binary of the changed tree (conformance stages of C14 / C19)
 case " $* " in *" C14 "*|*" C19 "*|*" C01 "*|*" C15 "*)
   ( cd $A/repo && CARGO_TARGET_DIR=$A/target-repo cargo build --release --offline 2>&1 | grep -E "^error" -A6 | head -20 )
-  export VERIF_REAL_BIN=$A/target-repo/release/rustybait;;
+  export VERIF_REAL_BIN=$A/target-repo/release/rustybait
+  if cc -shared -fPIC -O1 -o $A/fastclock.so /verif/tools/fastclock.c -ldl 2>/dev/null; then export VERIF_FASTCLOCK=$A/fastclock.so; fi;;
 esac
 for id in "$@"; do
   out=$(cd $A/verif && $A/target-checked/checked/harness $id quick 0 2>&1); rc=$?
